@@ -14,7 +14,7 @@ fn valid_biased(fp: &ExtendedFloat80, ms: i32, inf: i32) -> bool {
 
 /// Error-marked extended float: exponent shifted by INVALID_FP, mantissa normalised (top bit set).
 fn error_marked(fp: &ExtendedFloat80) -> bool {
-    fp.exp < 0 && (fp.mant >> 63) == 1 && fp.exp - shared::INVALID_FP > -1500 && fp.exp - shared::INVALID_FP < 1500
+    fp.exp < 0 && (fp.mant >> 63) == 1 && fp.exp - shared::INVALID_FP > -400 && fp.exp - shared::INVALID_FP < 2400
 }
 
 /// exact check that biased (mant, exp) [f32: ms=23, bias 127+23] is the round-to-nearest-even of num/den.
@@ -79,35 +79,48 @@ crate::harnesses! {
         cover(fp.exp < 0);
     }
 
-    /// lossy only matters where the exact call gives up: compute_float(q, w, true) == compute_float(q, w, false)
-    /// whenever the latter is not error-marked (all q, w; f32 and f64).
+    /// lossy only matters where the exact call gives up: compute_float::<f64>(q, w, true) == compute_float(q, w, false)
+    /// whenever the latter is not error-marked (all q, w).
     /// @prop C19 C01
+    /// @tier thorough
     /// @feat default radix_format
-    /// @fn lexical-parse-float::lemire::compute_float
-    /// @timeout 1800
-    fn lemire_lossy_only_changes_error_cases() {
+    /// @fn lexical-parse-float::lemire::compute_float[f64]
+    /// @timeout 3000
+    fn lemire_lossy_only_changes_error_cases_f64() {
         let q: i64 = any();
         let w: u64 = any();
         let a = compute_float::<f64>(q, w, false);
         let b = compute_float::<f64>(q, w, true);
         if a.exp >= 0 { vcheck!(a == b, "f64: lossy result == exact result when the exact path is conclusive"); }
-        let c = compute_float::<f32>(q, w, false);
-        let d = compute_float::<f32>(q, w, true);
-        if c.exp >= 0 { vcheck!(c == d, "f32: lossy result == exact result when the exact path is conclusive"); }
         cover(a.exp < 0);
     }
 
-    /// Band: for w < 2^20 and -12 <= q <= 12 a non-error compute_float::<f32> result IS the round-to-nearest-even of w * 10^q.
+    /// same for f32.
+    /// @prop C19 C01
+    /// @tier thorough
+    /// @feat default radix_format
+    /// @fn lexical-parse-float::lemire::compute_float[f32]
+    /// @timeout 3000
+    fn lemire_lossy_only_changes_error_cases_f32() {
+        let q: i64 = any();
+        let w: u64 = any();
+        let c = compute_float::<f32>(q, w, false);
+        let d = compute_float::<f32>(q, w, true);
+        if c.exp >= 0 { vcheck!(c == d, "f32: lossy result == exact result when the exact path is conclusive"); }
+        cover(c.exp < 0);
+    }
+
+    /// Band: for w < 2^16 and -10 <= q <= 10 a non-error compute_float::<f32> result IS the round-to-nearest-even of w * 10^q.
     /// @prop C01 C19
     /// @feat default radix_format
-    /// @bound mantissa w < 2^20, decimal exponent -12 <= q <= 12, f32 (the code is generic over the float's constants)
+    /// @bound mantissa w < 2^16, decimal exponent -10 <= q <= 10, f32 (the code is generic over the float's constants)
     /// @fn lexical-parse-float::lemire::compute_float[f32]
     /// @timeout 2400
     #[cfg_attr(kani, kani::unwind(14))]
     fn lemire_band_f32_rne() {
         let q: i64 = any();
         let w: u64 = any();
-        assume(w > 0 && w < (1 << 20) && q >= -12 && q <= 12);
+        assume(w > 0 && w < (1 << 16) && q >= -10 && q <= 10);
         let fp = compute_float::<f32>(q, w, false);
         if fp.exp >= 0 {
             let (num, den) = if q >= 0 { (w as u128 * pow10(q as u32), 1u128) } else { (w as u128, pow10((-q) as u32)) };
